@@ -7,6 +7,7 @@ package harness
 // driven by rapid (structured mutations of honest objects + raw bytes) and by native fuzz targets.
 
 import (
+	"math/big"
 	"bytes"
 	"crypto/sha256"
 	"fmt"
@@ -398,6 +399,23 @@ func FuzzC04_Points(f *testing.F) {
 		f.Add(append([]byte{byte(i)}, mustMarshalPlain(nullPoint(gi))...))
 		f.Add(append([]byte{byte(i)}, bytes.Repeat([]byte{0xff}, gi.G.PointLen())...))
 		f.Add(append([]byte{byte(i | 0x80)}, mustMarshalPlain(gi.G.Scalar().One())...))
+		if gi.Role == 1 && refFor(gi) != nil && gi.G.PointLen() == 48 {
+			// BLS12-381 G1: the first curve point (smallest x) outside the prime-order subgroup, compressed
+			// and in the uncompressed x||y form, and the generator in the uncompressed form
+			for x := big.NewInt(1); ; x.Add(x, big1) {
+				if y := fsqrt(modelBLSG1.rhs(x), modelBLSG1.P); y != nil {
+					pt := wPoint{X: new(big.Int).Set(x), Y: y}
+					if !modelBLSG1.InSubgroup(pt) {
+						f.Add(append([]byte{byte(i)}, encBLSG1(pt)...))
+						f.Add(append(append([]byte{byte(i)}, bigToBytes(pt.X, 48, false)...), bigToBytes(pt.Y, 48, false)...))
+						break
+					}
+				}
+			}
+			if bp, ok := decBLSG1(mustMarshalPlain(basePoint(gi))); ok {
+				f.Add(append(append([]byte{byte(i)}, bigToBytes(bp.X, 48, false)...), bigToBytes(bp.Y, 48, false)...))
+			}
+		}
 	}
 	f.Fuzz(func(t *testing.T, data []byte) {
 		if len(data) == 0 {
